@@ -264,41 +264,37 @@ def _n(pid, text, note, technique=None):
         NOTES[pid]["technique"] = technique
 
 
-_TIE = ("Trusted: Lean kernel (axioms checked ⊆ propext/Classical.choice/Quot.sound), translate.py, the hand-written model "
-        "(tied to the code by differential execution on generated histories every run, not proved), impl.py runner; SQLite/CPython/Twisted modelled not verified.")
-_n("C01", "Correspondence of model and code on message storage/replay plus an oracle that recomputes, from the history alone, which messages every open must replay (and that no message row outlives its mailbox), on hundreds (quick) to thousands (thorough) of generated multi-app histories with sweeps, restarts and id reuse. History-level theorem not yet proved: claimed as exploration.", _TIE,
-   "differential correspondence with Lean model + history oracle (theorem pending)")
-_n("C02", "Correspondence + oracle recomputing the ghost subscriber set of every add from the history (exactly-once fan-out with the binder's side), incl. bind/sweep/restart orders that split namespaces before the repair.", _TIE,
-   "differential correspondence with Lean model + history oracle (theorem pending)")
-_n("C03", "Correspondence + oracle comparing all `claimed` answers grouped by ghost nameplate incarnation (same id within, distinct across), repeated claims by holders.", _TIE,
-   "differential correspondence with Lean model + history oracle (theorem pending)")
-_n("C04", "Theorems about the model of _find_available_nameplate_id for every set of names in use, every random choice and every draw sequence (free, canonical decimal, shortest available length, exhaustion iff), proved against the translator-regenerated constants; correspondence + oracle on implementation pre/post dumps for the history part (claim held and committed when `allocated` is sent).",
-   _TIE + " The theorems cover the pure selection function; 'holds the claim when answered' is checked by oracle, not yet a theorem.")
-_n("C05", "Correspondence + oracle with ghost first-two sides per mailbox incarnation: later sides get exactly ack+crowded, never a message or subscription; known finding K-crowded-rejoin is recognised by signature.", _TIE,
-   "differential correspondence with Lean model + history oracle (theorem pending)")
-_n("C06", "Correspondence on multi-app histories with identical names/sides (model and code agree step by step on all tables and frames).", _TIE,
-   "differential correspondence with Lean model (theorem and two-run oracle pending)")
-_n("C07", "Correspondence + oracle on the claims relation recomputed from dumps around every step: claims change only by the owner's claim/allocate/release or by deletion of the nameplate in its last release / mailbox deletion / expiry; list iff held; release total; reclaimed changes nothing.", _TIE,
-   "differential correspondence with Lean model + history oracle (theorem pending)")
-_n("C08", "Correspondence + oracle evaluating close's post-condition on implementation dumps (closed answered, survivors untouched, everything of a deleted mailbox gone, every other row unchanged).", _TIE,
-   "differential correspondence with Lean model + history oracle (theorem pending)")
-_n("C09", "Theorem: in the model every frame of every crash-free history is emitted with both databases committed (C09_frames_synced_init, for every configuration), and with crashes under the crash-state invariant hypothesis; on the code side an independent second reader of the database FILES is compared with the server's own view at every sendMessage.",
-   _TIE + " Durability of a SQLite commit itself (fsync/journal) is trusted.")
-_n("C10", "Every commit boundary reached by crash-profile histories is crashed (recording proxy, reopen at last commit through the real start-up path); oracle: no duplicate/dangling rows in the state left, restart succeeds, sweeps complete, store empties after quiescence; model and code agree on every crash state.", _TIE + " SQLite's atomic commit is trusted.",
-   "fault enumeration over commit boundaries + correspondence with Lean model (crash-state invariant theorem pending)")
-_n("C11", "Correspondence on histories with restarts at random positions followed by sweeps/binds in both orders (the model has no object registry, so agreement of the code with it is the restart-invisibility statement).", _TIE,
-   "differential correspondence with Lean model (two-run oracle pending)")
-_n("C12", "Timer-driven histories through the real TimerService on a virtual clock with activity placed around the cutoff; oracle with ghost last-activity and subscriber sets on implementation dumps; cutoffs checked against translator-regenerated constants.", _TIE,
-   "differential correspondence with Lean model + history oracle (theorem pending)")
-_n("C13", "Oracle: completeness of every sweep, empty store after quiescence, faulted firings caught and next firing on schedule (real TimerService); correspondence.", _TIE,
-   "differential correspondence with Lean model + history oracle (theorem pending)")
-_n("C14", "Correspondence on histories with same-side reconnects repeating commands.", _TIE,
-   "differential correspondence with Lean model (two-run oracle pending)")
-_n("C15", "Theorems: the classification and time fields of both summary functions for every list of side rows and both values of pruned, and that each store call appends exactly the specified row; oracle: usage rows appended per step are in bijection with retirements seen in the implementation's dumps, classified by an independent implementation of the documented precedence.",
-   _TIE + " The one-record-per-retirement part is checked by oracle on crash-free histories, not yet a theorem.")
+_TIE = ("Trusted: Lean kernel (axioms of every listed theorem checked to be within propext/Classical.choice/Quot.sound; thorough tier re-checks "
+        "the modules with leanchecker), translate.py, the hand-written model (tied to the code by differential execution on generated histories "
+        "every run, not proved), impl.py runner; SQLite/CPython/Twisted/Autobahn modelled, not verified. Environment assumptions are exactly the "
+        "fields of GSys.WFOp (fresh connection ids, monotone time, fresh generated mailbox ids).")
+_PENDING = "differential correspondence with Lean model + history oracle on implementation traces (theorems in progress)"
+_n("C01", "Theorems for every well-formed history incl. crashes: an accepted add appends exactly one row (side from the bind); every other step leaves a mailbox's messages unchanged or, when the mailbox row is gone, empty; an accepted open replays exactly the stored rows; hence (ghost log reset at deletion) C01_replay_exact'. K-id-coercion: exact for non-integer ids/phases, counterexample theorem for integers. Code side: correspondence + oracle recomputing every replay from the history alone.", _TIE)
+_n("C02", "Theorems: an accepted add emits exactly one unmodified frame per listener, each once, nobody else (C02_fanout_exact, C02_exactly_once, C02_no_other); who enters/leaves the listener set in every kind of step, sweeps and binds never (C02_listeners_*), ghost subscriber characterisation over histories (C02_subscribers'). The model is object-free (DESIGN 9.2.1): that the code's registry behaves like it is established by correspondence + oracle with bind/sweep/restart orders, not by these theorems.", _TIE)
+_n("C03", "Theorems: a nameplate row's mailbox never changes while the row (id) exists, ids are never reused, all claimed answers within one incarnation agree (C03_same_mailbox'), rows with different ids have different mailboxes at all times of a history under fresh generated ids (C03_distinct', C03_distinct_answers'); repeated claim answered claimed with the same id _partial (K-crowded-rejoin; counterexample theorem). Code side: correspondence + oracle over all claimed answers.", _TIE)
+_n("C04", "Theorems about _find_available_nameplate_id's model for every set of names, every random choice and draw sequence (free, canonical decimal, shortest available, exhaustion iff), against translator-regenerated constants; C07_claim_added/C12_activity_stamps_allocate give the claim held when answered; oracle on implementation dumps incl. filled 1-9/1-99/1-999 states with non-decimal names.", _TIE)
+_n("C05", "Correspondence + oracle with ghost first-two sides per mailbox incarnation (later sides get exactly ack+crowded, never a message or subscription; K-crowded-rejoin recognised by signature). Theorems in progress.", _TIE, _PENDING)
+_n("C06", "Two-run oracle on the implementation: history vs history with the other apps' connections removed, per-app view of frames and rows (nameplate sides joined to names), incl. empty-string ids; correspondence. Theorems in progress.", _TIE,
+   "two-run (metamorphic) oracle on the implementation + differential correspondence with Lean model (theorems in progress)")
+_n("C07", "Theorems for every step from any invariant state, crashes included: a claim is added only by its side's claim/allocate, removed (nameplate surviving) only by its side's release, a nameplate is deleted only by a last release / a close deleting its mailbox / a sweep (C07_claims_change_only_by_owner and corollaries), listed iff held, release total and idempotent, reclaimed changes nothing, reusable afterwards. Code side: correspondence + oracle on the claims relation around every step.", _TIE)
+_n("C08", "Correspondence + oracle evaluating close's post-condition on implementation dumps (closed answered, survivors untouched, everything of a deleted mailbox gone, every other row unchanged). Theorems in progress.", _TIE, _PENDING)
+_n("C09", "Theorem C09_frames_synced_all: in every well-formed history, crashes included, for every configuration, every frame is emitted with both databases committed. Code side: an independent second reader of the database FILES is compared with the server's own view at every sendMessage.", _TIE + " Durability of a SQLite commit itself (fsync/journal) is trusted.")
+_n("C10", "Theorems: the global invariant GSys.Reach.ginv (uniqueness of every key, every foreign key, >= 1 side per nameplate, connection records consistent, nothing uncommitted) holds in every state of every well-formed history with crashes at any commit boundary of any command or sweep; every snapshot a kill can leave satisfies CInv (C10_crash_state_wf); sweeps after crashes never fail (C10_sweeps_total), store empties (C13_quiesce_reach). Code side: every commit boundary of crash-profile histories is crashed and restarted through the real start-up path; two-run oracle for re-sent commands after a crash (K-close-touch, K-crowded-rejoin by signature).", _TIE + " SQLite's atomic commit is trusted. Re-send convergence is checked by the two-run oracle, not yet a theorem.",
+   "Lean 4 proof (global invariant at every commit point) + fault enumeration over commit boundaries with correspondence")
+_n("C11", "Theorem C11_restart_invisible: for all crash-free H1, H2: frames and all channel + usage record tables of H1++dropAll++[restart]++H2 equal those without the restart (only the status row's reboot time differs). The model is object-free (DESIGN 9.2.1); for the code the two-run oracle compares a rebuilt server with a kept one on the same history.", _TIE,
+   "Lean 4 simulation proof over the model + two-run (kept vs rebuilt server) oracle on the implementation")
+_n("C12", "Theorems: a sweep keeps every mailbox that is subscribed or whose updated is within the expiration time, with all its rows; deletes only old unsubscribed ones and nothing of another mailbox/app; activity stamps updated; connected forever; grace arithmetic with the regenerated constants. Code side: real TimerService on a virtual clock, oracle with ghost activity/subscribers.", _TIE)
+_n("C13", "Theorems: sweep completeness in every app, C13_quiesce_reach (empty store after quiescence from any reachable state incl. crashes), faulted firing changes nothing and the next good one empties the store by the deadline. Code side: timer-driven histories with faults, emptiness oracle.", _TIE)
+_n("C14", "Two-run oracle on the implementation: every successfully answered claim/release/open/close duplicated on a fresh connection of the same side vs the original history (answers, later answers, tables after every later step; K-close-touch / K-crowded-rejoin by signature). Theorems in progress.", _TIE,
+   "two-run (metamorphic) oracle on the implementation + differential correspondence with Lean model (theorems in progress)")
+_n("C15", "Theorems: classification and time fields of both summary functions for every list of side rows and both values of pruned; each store call appends exactly the specified row; status row = number of listening connections (C13_status_row). Oracle: usage rows appended per step are in bijection with retirements seen in the implementation's dumps, classified by an independent implementation of the documented precedence.",
+   _TIE + " One-record-per-retirement over histories is checked by oracle, not yet a theorem.")
 _n("C16", "Theorems: floor/multiple/less-than-one-interval for every interval, tick rate and time, and for each of the three writing paths of the model; oracle on implementation rows against the true virtual times for random intervals.",
-   _TIE + " 'every row ever written' as an invariant over histories is checked by oracle, the per-path statements are theorems.")
-_n("C17", "Oracle for every clause (welcome, ack first with id, ping/pong, exactly one error with the prescribed text and the original message, nothing stored, connection state unchanged via later behaviour, no internal failure) with ghost protocol flags recomputed from the history; malformed-stream generator from every connection state.", _TIE,
-   "differential correspondence with Lean model + history oracle (theorems pending)")
-_n("C18", "Oracle for the list answer against the implementation's own dump; correspondence under random configurations.", _TIE,
-   "differential correspondence with Lean model + history oracle (theorems pending)")
+   _TIE + " 'Every row ever written' over histories is checked by oracle; the per-path statements are theorems.")
+_n("C17", "Theorems for every state: welcome, ack first, ping/pong, the complete enumeration of rejected situations with exact output and whole-state unchanged (C17_validation_error, C17_validation_complete); from reachable states an internal failure has one of three named causes only (C17_internal_only_known; counterexample theorems for K-global-mailbox-id and K-alloc-exhaust). Code side: oracle with ghost protocol flags, malformed stream from every connection state, odd strings.", _TIE)
+_n("C18", "Theorems: C18_list_answer (sorted distinct names of the caller's app, or [] when disallowed) and C18_config_independent (erased traces and channel db equal for any two configurations, every crash-free history). Code side: the same history run under other configurations and compared.", _TIE)
+_n("C19", "Theorems over a step model of database.py (every crash prefix, every pre-existing content class): create atomic, keep, reject unchanged, create-only, open-only; the schema statement lists are the translator's. Code side: real subprocesses killed with os._exit at every file-system call and SQL statement, directory compared with the property's demands and with the model's prediction.",
+   _TIE + " Atomic rename, SQLite transaction atomicity and executescript semantics are assumptions of the step semantics.",
+   "Lean 4 proof over a step model of database.py + real-kill fault enumeration with model diff")
+_n("C20", "Theorems: upgrade script applied to v1 objects = v2 objects (decide over the regenerated SQL), rows kept, backup, retry after any crash prefix. Code side: real kills inside the upgrade on random v1 databases; sqlite_master, row multisets and backup bytes compared.",
+   _TIE + " Same assumptions as C19.", "Lean 4 proof over a step model of database.py + real-kill fault enumeration with model diff")
